@@ -31,6 +31,14 @@ def enumerated(tier, seed):
             motifs.append(mo)
         out.append({"algo": algo, "path": "class", "N": N, "big": True, "motifs": motifs,
                     "rng": {"mode": "seed", "seed": seed * 10 + i}})
+    # joint degree sequences handed over as NumPy tables with a narrow integer dtype (legal: rows are sequences of ints)
+    for i, (dt, N) in enumerate([("uint8", 300), ("int8", 200), ("int16", 300), ("uint8", 120)]):
+        for algo in ("fast", "network"):
+            mo = {"kind": "clique", "m": 2, "edges": [], "ret": "list", "orbit_sizes": [2], "cols": [0], "names": "t0"}
+            out.append({"algo": algo, "path": "class", "N": N, "np_dtype": dt, "motifs": [mo],
+                        "jds": [[1 + (v % 3 == 0)] for v in range(N)] if sum(1 + (v % 3 == 0) for v in range(N)) % 2 == 0
+                        else [[1 + (v % 3 == 0)] for v in range(N - 1)] + [[2 + ((N - 1) % 3 == 0)]],
+                        "rng": {"mode": "seed", "seed": seed * 10 + i}})
     return out
 
 
@@ -119,6 +127,8 @@ def check(case):
         # two-edge motif stored as one row still counts for both of its edges.)
         flat = []
         for e in res.edge_list:
+            if not isinstance(e, (tuple, list)):
+                raise Violation("edges-vs-callbacks", f"edge column entry {e!r} is not an edge; edge column {res.edge_list[:8]}")
             if len(e) == 2 and all(isinstance(x, (tuple, list)) for x in e):
                 flat.extend(tuple(x) for x in e)
             else:
